@@ -18,6 +18,7 @@ def callZoo : String → Option (Feature → Option Str)
   | "empty" => some (fun _ => some [])
   | "name" => some (fun f => match f.attrs.get? "Name".toList with | some (v :: _) => some v | _ => none)
   | "auto" => some (fun f => some ("autoincrement:".toList ++ f.ftype ++ "x".toList))
+  | "autocolon" => some (fun f => some ("autoincrement:".toList ++ f.seqid ++ [':'] ++ f.ftype))
   | "autochr" => some (fun f => some ("autoincrement:".toList ++ f.seqid))
   | "const" => some (fun _ => some "fixed".toList)
   | "pos" => some (fun f => some (f.seqid ++ ['_'] ++ Feature.coordStr f.start))
